@@ -785,7 +785,7 @@ def run(ctx, total, info):
                 shards_b.append((tgt, s, lens, "membership", 1, 0))
             else:
                 for i in range(0, len(lens), 16):
-                    shards_b.append((tgt, s, lens[i:i + 16], "membership", 2 if tgt != C.M else 1, 0))
+                    shards_b.append((tgt, s, lens[i:i + 16], "membership", 1, 0))
     cfg_days = [(2019, 12, 30), (2020, 2, 27), (2020, 2, 29), (2020, 12, 31), (1900, 2, 27), (2000, 2, 28), (2021, 2, 27),
                 (2020, 6, 29)]
     if not q:
@@ -860,16 +860,16 @@ def run(ctx, total, info):
     cls = {k: len(v) for k, v in total.classes.items()}
     fl = (lambda quick_floor, thorough_floor: quick_floor if q else thorough_floor)
     info["floors"] = {
-        "calls_aggregate_regular": (n_a, fl(90000, 90000)),
-        "calls_aggregate_daily": (n_b, fl(16000, 16000)),
-        "calls_disaggregate": (n_c, fl(4500, 4500)),
-        "calls_arip": (n_e, fl(15000, 15000)),
-        "distinct_nontrivial": (len(total.nontrivial), fl(70000, 70000)),
-        "columns_compared": (cnt.get("columns_compared", 0), fl(1200000, 1200000)),
+        "calls_aggregate_regular": (n_a, fl(90000, 950000)),
+        "calls_aggregate_daily": (n_b, fl(16000, 270000)),
+        "calls_disaggregate": (n_c, fl(4500, 95000)),
+        "calls_arip": (n_e, fl(15000, 190000)),
+        "distinct_nontrivial": (len(total.nontrivial), fl(70000, 700000)),
+        "columns_compared": (cnt.get("columns_compared", 0), fl(1200000, 25000000)),
         "aggregate_outcome_classes": (cls.get("aggregate_outcome", 0), 330),
-        "daily_layouts": (cls.get("daily_layout", 0), fl(900, 900)),
-        "arip_structures": (cls.get("arip_structure", 0), fl(450, 450)),
-        "disaggregate_layouts": (cls.get("disaggregate_layout", 0), 54),
+        "daily_layouts": (cls.get("daily_layout", 0), fl(900, 23000)),
+        "arip_structures": (cls.get("arip_structure", 0), fl(450, 2000)),
+        "disaggregate_layouts": (cls.get("disaggregate_layout", 0), fl(54, 60)),
     }
 
 
